@@ -393,7 +393,7 @@ def resumeR (cfg : Cfg) (s : St) : St :=
     match s.pc with
     | .poolWait =>
       -- `finally: pop`; `_available_connections(key) > 0` holds (slot was free when woken)
-      createConn cfg { s with rWoken := false }
+      createConn cfg { s with rWoken := false, poolQ := s.poolQ.filter (· ≠ .R) }
     | .dnsOwner | .dnsWaiter =>
       attemptConn cfg { s with dnsWaitR := false, addrsLeft := cfg.naddr, attempt := 0 }
     | .connecting => afterConnect cfg s
